@@ -4,6 +4,8 @@ import Pandora.Model.C18Reg
 import Pandora.Model.C18Engine
 import Pandora.Spec.C18Sess
 import Pandora.Model.C18Hook
+import Pandora.Spec.C18Valid
+import Pandora.Model.C18Nest
 
 namespace Pandora.Drv.C18
 open Pandora.Drv Pandora.Model.C18 Pandora.Spec.C18
@@ -30,6 +32,9 @@ def parseCfg (s : String) : Option Cfg :=
       if t == "_" then pure rest else pure ((i, ← t.toInt?) :: rest)
   go (s.splitOn "/") 1
 
+/-- the validation rule of the instrumented config type on the hook / engine path: field 3 (`Conf.C`) ≥ vmin -/
+def ruleOf (kv : List (String × String)) : Rule := ⟨3, ((getN? kv "vmin").getD 0 : Nat)⟩
+
 def parseInput (s : String) : Option Input := do
   let kv := parseKV s
   let sh ← parseShape (getS kv "sh")
@@ -42,9 +47,13 @@ def parseInput (s : String) : Option Input := do
   let rf ← parseNats (getS kv "rf")
   -- bad=1 (hook / engine path): the user's settings do not decode, so EVERY fillConf invocation fails
   let bad := getS kv "bad" == "1"
-  pure { sh, form, k, w := { dflt := d, user := u, hasFill := getS kv "fill" == "1",
-                             fillFault := if bad then fun _ => true else ff.contains,
-                             ctorFault := cf.contains, factFault := rf.contains } }
+  let w : World := { dflt := d, user := u, hasFill := getS kv "fill" == "1",
+                     fillFault := if bad then fun _ => true else ff.contains,
+                     ctorFault := cf.contains, factFault := rf.contains }
+  let inp : Input := { sh, form, k, w }
+  -- vmin=N (hook / engine path): the fillConf is the VALIDATING decoder, the config type's rule is `C >= N`: when the
+  -- defaults overlaid by the user's settings break the rule every fillConf invocation fails
+  if !ruleHolds (ruleOf kv) inp then pure { inp with w := { inp.w with fillFault := fun _ => true } } else pure inp
 
 def okc (b : Bool) : String := if b then "+" else "!"
 
@@ -142,7 +151,7 @@ def eraseFills (o : Obs) : Obs :=
 /-- the Spec on an observation without fill events: errors and configuration in full (the user's settings ARE
 applied), the per-call structure (default-config / constructor / factory invocations, identities, views) as for a
 run without fillConf -/
-def judgeHook (inp : Input) (obs : Option Obs) (bad : Bool) (skipConfig : Bool := false) : String :=
+def judgeHook (inp : Input) (obs : Option Obs) (bad : Bool) (skipConfig : Bool := false) (rule : Rule := ⟨3, 0⟩) : String :=
   let noFill : Input := { inp with w := { inp.w with hasFill := false } }
   match obs with
   | none => judge inp obs fields
@@ -154,6 +163,11 @@ def judgeHook (inp : Input) (obs : Option Obs) (bad : Bool) (skipConfig : Bool :
       | _ => s }
     if !registerOk inp.sh then "fail:registered:invalid registration accepted"
     else if o.steps.any (fun s => s.evs.any isFill) then "fail:driver:fill event on the hook path"
+    else if !validProductsOk rule inp o then
+      "fail:errors:a component was built from a configuration that fails validation (the config error did not reach the caller)"
+    else if !invalidRefusedOk rule inp o then
+      "fail:errors:the configuration (defaults overlaid by the user's settings) fails validation, but an operation that needs it did not end with the config error"
+    else if !bad && !validAcceptedOk rule inp o then "fail:errors:a valid configuration was refused with a config error"
     else if !errorsOk inp restored then "fail:errors:error not delivered as the error result / panic rule"
     else if !skipConfig && !configOk inp o fields then "fail:config:product config is not defaults overlaid by user settings"
     else if !bad && freshApplies noFill && !freshOk noFill o then "fail:fresh:config not created per product or shared between products"
@@ -234,13 +248,16 @@ def parseTriple (s : String) : Option (Int × Int × Int) :=
   | _ => none
 
 /-- the Spec on the summary of what the REAL engine did -/
-def judgeEngine (inp : Input) (inst : Nat) (model : Pandora.Model.C18Engine.EngineObs) (kv : List (String × String)) : String :=
+def judgeEngine (inp : Input) (inst : Nat) (model : Pandora.Model.C18Engine.EngineObs) (kv : List (String × String))
+    (rule : Rule := ⟨3, 0⟩) : String :=
   let gi := Pandora.Model.C18Engine.gunInput inp inst
   let exp := expected inp.sh inp.w
   match getN? kv "guns", getN? kv "cells", getN? kv "own", parseNats (getS kv "binds"),
         (splitList (getS kv "seen")).mapM parseTriple with
   | some guns, some cells, some own, some binds, some seen =>
-    if binds.any (· > 1) then "fail:fresh:one gun was bound to more than one instance"
+    if inp.sh.cfg != .none && seen.any (fun t => rule.min > t.2.2) then
+      "fail:errors:a gun was built from a configuration that fails validation (the config error did not reach the caller)"
+    else if binds.any (· > 1) then "fail:fresh:one gun was bound to more than one instance"
     else if getS kv "res" == "nilgun" then "fail:errors:the gun factory handed out a nil gun with a nil error (an error did not reach the caller)"
     else if getS kv "res" != model.res then
       s!"fail:errors:the pool run ended {getS kv "res"}, the constructor/config error plan says {model.res}"
@@ -262,7 +279,7 @@ def handleEngine (input impl : String) : String × String :=
     | some m =>
       if impl.startsWith "eng skip=" then ("-", "skip:inconclusive " ++ (impl.drop 9).toString) else
       if impl == "regpanic" then (showEngine m, "fail:regpanic:valid registration through core/register panicked") else
-      (showEngine m, judgeEngine inp inst m (parseKV impl))
+      (showEngine m, judgeEngine inp inst m (parseKV impl) (ruleOf kv))
   | _, _ => ("-", "fail:driver:unparsable input")
 
 /-! ### `hist=1`: several creations on one registration -/
@@ -331,8 +348,8 @@ def parseHistObs (s : String) : Option (Option HObs) :=
 
 /-- the single-creation Spec on one phase, with the key of the clause that fails (the configuration clause is not
 judged for a shared default pointer: there earlier creations' settings stay in the shared object) -/
-def judgePhaseH (inp : Input) (o : Obs) (hook : Bool) : String :=
-  if hook then judgeHook inp (some o) false (inp.sh.dflt == .shared)
+def judgePhaseH (inp : Input) (o : Obs) (hook : Bool) (rule : Rule := ⟨3, 0⟩) : String :=
+  if hook then judgeHook inp (some o) (!ruleHolds rule inp) (inp.sh.dflt == .shared) rule
   else if !errorsOk inp o then "fail:errors:error not delivered as the error result / panic rule"
   else if inp.sh.dflt != .shared && !configOk inp o fields then "fail:config:product config is not the defaults overlaid by the settings of ITS creation"
   else if freshApplies inp && !freshOk inp o then "fail:fresh:config not created+filled per product or shared between products"
@@ -349,14 +366,45 @@ def zeroSeen (sh : Shape) (o : Obs) : Obs :=
         | _ => s }
   else o
 
+/-- a history through the hooks with a validation rule: the creations whose configuration (defaults overlaid by the
+settings of THAT creation) breaks the rule run in the world in which every fillConf fails, the others in the world of
+the history; every creation starts in the state the earlier ones left (`phaseSt`, as `histSt` does) -/
+def histStV (h : HInput) (rule : Rule) : List Phase → St → St × List Obs
+  | [], st => (st, [])
+  | p :: ps, st =>
+    let inp := h.input p
+    let inp : Input := if ruleHolds rule inp then inp else { inp with w := { inp.w with fillFault := fun _ => true } }
+    let rest := histStV h rule ps (phaseSt inp st).1
+    (rest.1, phaseObs inp st :: rest.2)
+
+def runHistV (h : HInput) (rule : Rule) : Option HObs :=
+  if !registerOk h.sh then none else
+  let r := histStV h rule h.phases (histInit h)
+  some ⟨r.2, viewsOf r.1.heap (r.2.flatMap (·.steps))⟩
+
+/-- on the hook path the harness cannot see fillConf's invocation index: it numbers the FAILED decodes; the model's
+fill errors are renumbered the same way (first failure = 0), across the phases of a history -/
+def renumFillErrs : Nat → List Step → Nat × List Step
+  | n, [] => (n, [])
+  | n, s :: ss =>
+    match s.res with
+    | .err (.fill _) => let r := renumFillErrs (n + 1) ss; (r.1, { s with res := .err (.fill n) } :: r.2)
+    | .panic (.fill _) => let r := renumFillErrs (n + 1) ss; (r.1, { s with res := .panic (.fill n) } :: r.2)
+    | _ => let r := renumFillErrs n ss; (r.1, s :: r.2)
+
+def renumFillErrsH : Nat → List Obs → List Obs
+  | _, [] => []
+  | n, o :: os => let r := renumFillErrs n o.steps; { o with steps := r.2 } :: renumFillErrsH r.1 os
+
 def handleHist (input impl : String) : String × String :=
   let kv := parseKV input
   match parseHist kv with
   | none => ("-", "fail:driver:unparsable history")
   | some h =>
     let hook := getS kv "via" == "hook"
-    let mo := runHist h
-    let mo := if hook then mo.map fun o => { o with phases := o.phases.map eraseFills } else mo
+    let rule := ruleOf kv
+    let mo := if hook then runHistV h rule else runHist h
+    let mo := if hook then mo.map fun o => { o with phases := renumFillErrsH 0 (o.phases.map eraseFills) } else mo
     let mo := mo.map fun o => { o with phases := renumber h.sh o.phases }
     let m := showHist h.sh mo
     if ((getS (parseKV impl) "steps").splitOn "#").any (fun ph => (splitList ph ";").any (·.endsWith ">nil")) then
@@ -372,7 +420,7 @@ def handleHist (input impl : String) : String × String :=
       else if o.phases.length != h.phases.length then (m, "fail:crash:number of phases")
       else
         let o : HObs := { o with phases := o.phases.map (zeroSeen h.sh) }
-        let bad := ((h.phases.zip o.phases).map fun x => judgePhaseH (h.input x.1) x.2 hook).filter (· != "ok")
+        let bad := ((h.phases.zip o.phases).map fun x => judgePhaseH (h.input x.1) x.2 hook rule).filter (· != "ok")
         match bad with
         | v :: _ => (m, v)
         | [] =>
@@ -590,6 +638,7 @@ def handleHookConf (input impl : String) : String × String :=
     let mk (user : Cfg) (ff : Nat → Bool) : Input :=
       { sh, form, k := 1, w := { dflt := d, user, hasFill := true, fillFault := ff, ctorFault := noFault, factFault := noFault } }
     let evCount (o : Obs) : Nat := (o.steps.map fun s => (s.evs.filter (!isFill ·)).length).sum
+    let rule := ruleOf kv
     let exp : String × Nat :=
       match hook true typeKnown dk nsk data with
       | .pass => ("pass", 0)
@@ -603,6 +652,12 @@ def handleHookConf (input impl : String) : String × String :=
            | some o => ("err.decode", evCount o)
            | none => ("?", 0))
         | some user =>
+          -- fillConf = decode AND validate: a configuration that breaks the rule of the config type is refused
+          if !ruleHolds rule (mk user noFault) then
+            (match run (mk [] fun _ => true) with
+             | some o => ("err.valid", evCount o)
+             | none => ("?", 0))
+          else
           match run (mk user noFault) with
           | some o =>
             (match (products o.steps).getLast? with
@@ -626,8 +681,13 @@ def handleHookConf (input impl : String) : String × String :=
       if res.startsWith "ok." || res == "pass" then (m, "fail:lookup:ill-formed plugin config data / an unknown plugin name did not end with the error result")
       else if getN? ikv "ev" != some 0 then (m, "fail:lookup:user code ran although the plugin config data are ill-formed / the name is unknown")
       else (m, "ok")
+    else if exp.1 == "err.valid" then
+      if res.startsWith "ok." then
+        (m, "fail:errors:a component was built from a configuration that fails validation (the config error did not reach the caller)")
+      else (m, "ok")
     else if exp.1.startsWith "ok." then
-      if res != exp.1 then (m, "fail:config:the component created through the hook was not built from the defaults overlaid by the user's settings")
+      if res == "err.valid" then (m, "fail:errors:a valid configuration was refused with a config error")
+      else if res != exp.1 then (m, "fail:config:the component created through the hook was not built from the defaults overlaid by the user's settings")
       else if getN? ikv "ev" != some exp.2 then (m, "fail:counts:user code invoked another number of times than the constructor shape prescribes")
       else (m, "ok")
     else (m, "ok")
@@ -635,19 +695,114 @@ def handleHookConf (input impl : String) : String × String :=
 
 end HookConf
 
-def handle : Handler := fun input impl =>
-  if getS (parseKV input) "sess" == "1" then Sess.handleSess input impl else
-  if getS (parseKV input) "via" == "hookconf" then HookConf.handleHookConf input impl else
-  if getS (parseKV input) "hist" == "1" then handleHist input impl else
-  if getS (parseKV input) "via" == "reg" then handleReg (parseKV input) impl else
-  if getS (parseKV input) "via" == "engine" then handleEngine input impl else
+/-! ### `via=nest`: a plugin whose configuration contains another plugin (created by the decoder while it fills the
+outer configuration: the registry and the hooks are re-entered)
+
+The model is a composition of two single-registration runs: the nested registration runs `New` once per fillConf
+invocation of the outer creation; the outer fillConf fails exactly when the nested creation failed or the outer
+configuration breaks the validation rule.  Every theorem about `Model.C18.run` holds for ANY fault plan, so in particular
+for the plan the nested creations induce. -/
+
+namespace Nest
+
+/-- index of the fillConf invocation of a step (at most one `Get` per operation) -/
+def fillIdx? (s : Step) : Option Nat := s.evs.findSome? fun | .fill i _ _ => some i | _ => none
+
+open Pandora.Model.C18Nest in
+abbrev NestModel := NestObs
+
+def showNest (osh ish : Shape) (m : Pandora.Model.C18Nest.NestObs) : String :=
+  let outerShown : Obs := { eraseFills m.outer with steps := (renumFillErrs 0 (eraseFills m.outer).steps).2 }
+  let outerShown := (renumber osh [outerShown]).headD outerShown
+  let innerShown := (renumber ish [eraseFills m.inner]).headD m.inner
+  let isteps := m.outer.steps.map fun s =>
+    match fillIdx? s with
+    | some i => (match innerShown.steps[i]? with | some st => "|".intercalate (st.evs.map (showEv ish)) | none => "?")
+    | none => ""
+  -- which fillConf invocation made the configuration a product was built from: the last one so far
+  let rec subs (cur : Option Nat) : List Step → List String
+    | [] => []
+    | s :: ss =>
+      let cur := match fillIdx? s with | some i => some i | none => cur
+      match product? s with
+      | some p =>
+        let e := match cur.bind (fun i => m.inner.steps[i]?) |>.bind product? with
+          | some ip => s!"{p.serial}:{ip.serial}:{ip.seen.get 1}/{ip.seen.get 2}/{ip.seen.get 3}"
+          | none => s!"{p.serial}:-"
+        e :: subs cur ss
+      | none => subs cur ss
+  s!"nest steps={showSteps osh outerShown.steps} isteps={";".intercalate isteps} subs={",".intercalate (subs none m.outer.steps)} views={showViews m.outer.views} iviews={showViews m.inner.views}"
+
+def parseSub (s : String) : Option (Nat × Option (Nat × Int × Int × Int)) :=
+  match s.splitOn ":" with
+  | [o, "-"] => do pure (← o.toNat?, none)
+  | [o, i, t] => do
+    let t ← parseTriple t
+    pure (← o.toNat?, some (← i.toNat?, t))
+  | _ => none
+
+def handleNest (input impl : String) : String × String :=
+  let kv := parseKV input
+  match parseInput (input ++ " fill=1 ff="), parseShape (getS kv "ish"), parseCfg (getS kv "id"), parseCfg (getS kv "iu"),
+        parseNats (getS kv "icf"), parseNats (getS kv "irf") with
+  | some outer0, some ish, some idf, some iu, some icf, some irf =>
+    let rule := ruleOf kv
+    let iw : World := { dflt := idf, user := iu, hasFill := true, fillFault := fun _ => false, ctorFault := icf.contains, factFault := irf.contains }
+    let innerBase : Input := { sh := ish, form := .component, k := 0, w := iw }
+    let innerBad := !ruleHolds rule innerBase
+    let inner0 : Input := { innerBase with w := { innerBase.w with fillFault := fun _ => innerBad } }
+    if outer0.sh.cfg == .none then ("-", "fail:driver:via=nest needs an outer constructor with a config") else
+    if outer0.sh.dflt == .shared then
+      ("-", "skip:one shared default config: the decoder decodes a new nested component INTO the one the shared config holds (the plugin author's sharing)") else
+    match Pandora.Model.C18Nest.nestRun outer0 inner0 with
+    | none =>
+      if impl == "regpanic" then ("regpanic", if registerOk outer0.sh && registerOk ish then "fail:regpanic:valid registration panicked" else "ok")
+      else ("regpanic", "fail:registered:invalid registration accepted")
+    | some m =>
+      let ms := showNest outer0.sh ish m
+      if impl == "HANG" then (ms, "fail:hang:a creation whose configuration contains another plugin never returned (the registry / the hooks are not re-entrant)")
+      else if impl.startsWith "PANIC" then (ms, "fail:errors:a creation whose configuration contains another plugin panicked")
+      else if impl == "regpanic" then (ms, "fail:regpanic:valid registration panicked")
+      else
+      let ikv := parseKV impl
+      let stepToks := splitList (getS ikv "steps") ";"
+      if stepToks.any (·.endsWith ">nil") then (ms, "fail:errors:nil component with nil error (an error did not reach the caller)")
+      else if (impl.splitOn ">err.other:").length > 1 || (impl.splitOn ">panic.other:").length > 1 then
+        (ms, "fail:errors:an error or panic that is none of the constructor / config errors reached the caller")
+      else
+      match stepToks.mapM parseStep, parseViews (getS ikv "views"), (splitList (getS ikv "subs")).mapM parseSub with
+      | some steps, some views, some subs =>
+        -- the outer creation: the Spec of the hook path (a fillConf may fail because the nested creation failed)
+        let relaxed := innerBad || !ruleHolds rule outer0 || !icf.isEmpty || !irf.isEmpty
+        let v := judgeHook outer0 (some ⟨steps, views⟩) relaxed false rule
+        if v != "ok" then (ms, v)
+        else
+          let exp := expected ish inner0.w
+          let want : Int × Int × Int := if ish.cfg = .none then (0, 0, 0) else (exp.get 1, exp.get 2, exp.get 3)
+          if subs.any (fun x => x.2.isNone) then
+            (ms, "fail:config:a component was built although the nested plugin of its configuration was not created")
+          else if subs.any (fun x => match x.2 with | some (_, t) => t != want | none => false) then
+            (ms, "fail:config:the nested component was not built from ITS registration's defaults overlaid by ITS settings")
+          else if ish.cfg != .none && subs.any (fun x => match x.2 with | some (_, t) => rule.min > t.2.2 | none => false) then
+            (ms, "fail:errors:a nested component was built from a configuration that fails validation")
+          else if reconfigures outer0 && !nodup (subs.filterMap fun x => x.2.map (·.1)) then
+            (ms, "fail:fresh:two products that were configured separately share one nested component")
+          else (ms, "ok")
+      | _, _, _ => (ms, s!"fail:crash:unparsable observation {impl.take 160}")
+  | _, _, _, _, _, _ => ("-", "fail:driver:unparsable input")
+
+end Nest
+
+/-- one creation on one registration, directly or through the hooks -/
+def handlePlain (input impl : String) : String × String :=
   match parseInput input with
   | none => ("-", "fail:driver:unparsable input")
   | some inp =>
     let hook := getS (parseKV input) "via" == "hook"
     if (lookup (parseKV input) "nm").isSome || (lookup (parseKV input) "pt").isSome then handleMiss inp (parseKV input) impl else
     if hook && !inp.w.hasFill then ("-", "fail:driver:via=hook needs fill=1") else
-    let m := showObs inp.sh (if hook then (run inp).map eraseFills else run inp)
+    let m := showObs inp.sh (if hook then (run inp).map fun o => { eraseFills o with steps := (renumFillErrs 0 (eraseFills o).steps).2 }
+                             else run inp)
     -- an operation that hands out neither a component nor an error (a nil component with a nil error, printed
     -- `nil` by the harness) has no place in `Res`: that is an error that did not reach the caller
     if (splitList (getS (parseKV impl) "steps") ";").any (fun st => st.endsWith ">nil") then
@@ -665,6 +820,38 @@ def handle : Handler := fun input impl =>
             | .ok p => if p.seen == [(0, 0), (1, 0), (2, 0), (3, 0)] then { s with res := .ok { p with seen := [] } } else s
             | _ => s }
         else obs
-      (m, if hook then judgeHook inp obs (getS (parseKV input) "bad" == "1") else judge inp obs fields)
+      let rule := ruleOf (parseKV input)
+      (m, if hook then judgeHook inp obs (getS (parseKV input) "bad" == "1" || !ruleHolds rule inp) false rule
+          else judge inp obs fields)
+
+/-! ### `conc=1`: several registrations of ONE registry, their creations running concurrently (one goroutine each).
+Every registration's user code runs in its own goroutine only, so its observation is what the registration does alone
+(`C18_isolation`): the plain single-creation handler judges each of them. -/
+def handleConc (input impl : String) : String × String :=
+  let subs := ((getS (parseKV input) "cases").splitOn "@@").map fun c => c.replace "+" " "
+  if impl.startsWith "RACE " || impl == "RACE" then
+    -- the driver built with -race: the race runtime reported a data race while this case ran
+    ("conc " ++ " ## ".intercalate (subs.map fun c => (handlePlain c "").1),
+     s!"fail:race:a data race between creations that run concurrently on one registry (documented thread safe without concurrent Register): {(impl.drop 5).toString}") else
+  let obs := (if impl.startsWith "conc " then (impl.drop 5).toString else impl).splitOn " ## "
+  if subs.length != obs.length then ("-", s!"fail:crash:{obs.length} observations for {subs.length} concurrent creations") else
+  let rs := (subs.zip obs).map fun x => handlePlain x.1 x.2
+  let m := "conc " ++ " ## ".intercalate (rs.map (·.1))
+  match (rs.zip obs).find? (fun x => x.1.2 != "ok") with
+  | some (r, o) =>
+    if o.startsWith "PANIC" then (m, "fail:errors:a creation that ran concurrently with creations on other registrations panicked")
+    else (m, r.2)
+  | none => (m, "ok")
+
+def handle : Handler := fun input impl =>
+  if impl == "RACE-SKIP" then ("-", "skip:the -race driver runs the concurrent cases only") else
+  if getS (parseKV input) "sess" == "1" then Sess.handleSess input impl else
+  if getS (parseKV input) "conc" == "1" then handleConc input impl else
+  if getS (parseKV input) "via" == "hookconf" then HookConf.handleHookConf input impl else
+  if getS (parseKV input) "via" == "nest" then Nest.handleNest input impl else
+  if getS (parseKV input) "hist" == "1" then handleHist input impl else
+  if getS (parseKV input) "via" == "reg" then handleReg (parseKV input) impl else
+  if getS (parseKV input) "via" == "engine" then handleEngine input impl else
+  handlePlain input impl
 
 end Pandora.Drv.C18
